@@ -256,7 +256,9 @@ def b_step(ctx, prog):
                 complete = v
                 comp_args = c[2]
             else:
-                ctx.require(False, "B-STEP: unrecognised condition %s in receive_packet: no verdict" % S.term_str(c)[:100])
+                # RFC 791's procedure decides on MF, FO = 0, TDL != 0 and "all RCVBT bits set" only: anything else that
+                # steers the step (a byte counter, a fragment count) changes when a datagram completes
+                probs.append("receive_packet additionally decides on %s: RFC 791 completes a datagram exactly when TDL is known and every block up to it is marked - with another condition in the way (one that a repeated or overlapping fragment can throw off) a fully covered datagram may never be returned" % S.term_str(c)[:110])
         if leaf[0] != "state":
             probs.append("a path through receive_packet changes nothing (%s)" % S.term_str(leaf)[:60])
             continue
